@@ -71,7 +71,12 @@ class Addr:
             self.expires = datetime.datetime.strptime(gmtexpires, fmt)
         self.created = datetime.datetime.utcnow()
 
-        if self.expires is not None:
+        if self.expires is None:
+            # a permanent mapping: a timer from an earlier, timed
+            # mapping must not remove it
+            self._cancel_expiry()
+
+        else:
             if oldexpires is None:
                 if self.expires <= self.created:
                     diff = datetime.timedelta(seconds=0)
@@ -84,10 +89,16 @@ class Addr:
                 diff = self.expires - oldexpires
                 self.expiry.delay(diff.total_seconds())
 
+    def _cancel_expiry(self):
+        if self.expiry is not None and self.expiry.active():
+            self.expiry.cancel()
+        self.expiry = None
+
     def _expire(self):
         """
         callback done via callLater
         """
+        self._cancel_expiry()
         # we're stored under our name and our address
         for k in [k for (k, v) in self.map.addr.items() if v is self]:
             del self.map.addr[k]
